@@ -7,9 +7,8 @@
    the error that ended the history if any, and an informational flag "no array / byte-array child
    was left with elements unread" (a hypothesis before 49f9936, none now).  run_req(s) / run_areq(s) / run_obj_root / run_arr_root, find_value_by_key,
    close_obj: the mirror of the C++ scopes (MpScopeModel.v).  REach acts (a request): VisitKeys with a callback
-   that runs the i-th action of acts under the i-th key while that key is current (find_value_by_key_ref: the
-   callback's key is a REFERENCE to the scope's key slot, as in the code).  each_free_*: the history has no
-   REach.  keys_refl v: at every depth every map key equals itself (no NaN float/double key).  doc_ok: maps at every depth have keys of
+   that runs the i-th action of acts under the i-th key while that key is current (the callback gets a COPY of
+   the visited key since d346324, so its keyed requests are the ordinary ones).  doc_ok: maps at every depth have keys of
    the supported kinds, pairwise different under the library's key equality.  bytes: all < 256.
    olayout body kvs rend: the members kvs lie one after the other from position body to position rend
    (each key and value delimited by the reference decoder).
@@ -58,7 +57,6 @@ Print Assumptions T_C03_find_absent_cycle.
    is error-free: answers as the association list does and keeps the invariant *)
 Theorem T_C03_requests_keep_cursor : forall narrow widen o r body kvs rend,
   bytes body -> olayout body kvs rend -> doc_ok (MMap kvs) = true ->
-  (each_free_req r = true \/ keys_refl (MMap kvs) = true) ->
   forall st p, cursor body kvs rend st p ->
   forall toks c, spec_req narrow widen o kvs r = (toks, None, c) ->
   exists st' p', run_req narrow widen o r st p = (toks, Go st' p', false) /\ cursor body kvs rend st' p'.
@@ -107,60 +105,29 @@ Example T_C03_close_truncated_repaired : run_obj_root no_narrow id_widen skip_al
 Proof. exact f17_repaired. Qed.
 Print Assumptions T_C03_close_truncated_repaired.
 
-(* ---- refinement to the association list ---- *)
-(* The FULL statement: EVERY error-free history on EVERY well-formed object document, any trailing data: all
-   key kinds and wire formats, any request order, repeats, absent keys, members never requested, nested objects,
-   arrays and byte arrays opened and left partly read, VisitKeys, and keyed requests made from inside the
-   VisitKeys callback under the visited key (what SerializeMapImpl does) — the answers are those of the
-   association list and after the scope is destroyed the reader stands exactly at the trailing data.
-     mp_refines_statement :=
-       forall narrow widen o data kvs rest h toks c,
-         bytes data -> decode data = Some (MMap kvs, rest) -> doc_ok (MMap kvs) = true ->
-         spec_reqs narrow widen o kvs h = (toks, None, c) ->
-         run_obj_root narrow widen o data h = Done (KOpen :: toks ++ [KClose]) rest false.
-   It is REFUTED by the implementation as it is (known finding M-visitkeys-ref): VisitKeys hands the callback a
-   reference to the scope's own key slot; a keyed request under a key that does not equal itself (NaN) does not
-   match at once, the search goes on, ReadKey overwrites the slot and the next key of the same kind matches
-   ITSELF: { NaN:1, 1.0f:2 } gives 2 under the NaN key (the specification: not found) and the enumeration stops *)
-Theorem T_C03_mp_refines_refuted : ~ mp_refines_statement.
-Proof. exact mp_refines_refuted. Qed.
-Print Assumptions T_C03_mp_refines_refuted.
-
-Example T_C03_mp_refines_refuted_witness :
-  decode nan_doc = Some (MMap nan_kvs, []) /\ doc_ok (MMap nan_kvs) = true /\
-  spec_reqs no_narrow id_widen skip_all nan_kvs nan_prog = ([KFalse; KVal (VInt 2)], None, true) /\
-  run_obj_root no_narrow id_widen skip_all nan_doc nan_prog = Done [KOpen; KVal (VInt 2); KClose] [] false.
-Proof. exact (conj nan_decodes (conj nan_doc_ok (conj nan_spec nan_run))). Qed.
-Print Assumptions T_C03_mp_refines_refuted_witness.
-
-(* what holds instead, on the whole rest of the class: the statement at full strength
-   (a) for every history without requests from inside a VisitKeys callback, on EVERY well-formed document, and
-   (b) for EVERY history, callbacks included, on every well-formed document whose map keys all equal themselves *)
-Theorem T_C03_mp_refines_outside : forall narrow widen o data kvs rest h toks c,
+(* ---- refinement to the association list: FULL STRENGTH (holds since 49f9936; with callback requests since d346324) ---- *)
+(* EVERY error-free history on EVERY well-formed object document, any trailing data: all key kinds and wire
+   formats, any request order, repeats, absent keys, members never requested, nested objects, arrays and byte
+   arrays opened and left partly read, VisitKeys, and keyed requests made from inside the VisitKeys callback
+   under the visited key (what SerializeMapImpl does; NaN keys included: nothing is found under a key that does
+   not equal itself and the enumeration goes on) — the answers are those of the association list and after the
+   scope is destroyed the reader stands exactly at the trailing data *)
+Theorem T_C03_mp_refines : forall narrow widen o data kvs rest h toks c,
   bytes data -> decode data = Some (MMap kvs, rest) -> doc_ok (MMap kvs) = true ->
-  (each_free_reqs h = true \/ keys_refl (MMap kvs) = true) ->
   spec_reqs narrow widen o kvs h = (toks, None, c) ->
   run_obj_root narrow widen o data h = Done (KOpen :: toks ++ [KClose]) rest false.
 Proof. exact obj_root_refines. Qed.
-Print Assumptions T_C03_mp_refines_outside.
-
-(* (a) alone: the statement of T_C03_mp_refines before REach was added to the history language *)
-Theorem T_C03_mp_refines : forall narrow widen o data kvs rest h toks c,
-  bytes data -> decode data = Some (MMap kvs, rest) -> doc_ok (MMap kvs) = true ->
-  each_free_reqs h = true ->
-  spec_reqs narrow widen o kvs h = (toks, None, c) ->
-  run_obj_root narrow widen o data h = Done (KOpen :: toks ++ [KClose]) rest false.
-Proof. intros narrow widen o data kvs rest h toks c Hb Hd Hok Hf. exact (obj_root_refines narrow widen o data kvs rest h toks c Hb Hd Hok (or_introl Hf)). Qed.
 Print Assumptions T_C03_mp_refines.
 
-(* (b) alone: map loading (VisitKeys + a load under each key) on documents without NaN keys *)
-Theorem T_C03_mp_refines_each : forall narrow widen o data kvs rest h toks c,
-  bytes data -> decode data = Some (MMap kvs, rest) -> doc_ok (MMap kvs) = true ->
-  keys_refl (MMap kvs) = true ->
-  spec_reqs narrow widen o kvs h = (toks, None, c) ->
-  run_obj_root narrow widen o data h = Done (KOpen :: toks ++ [KClose]) rest false.
-Proof. intros narrow widen o data kvs rest h toks c Hb Hd Hok Hf. exact (obj_root_refines narrow widen o data kvs rest h toks c Hb Hd Hok (or_intror Hf)). Qed.
-Print Assumptions T_C03_mp_refines_each.
+(* the former witness of M01 (the callback's key was a reference to the scope's key slot: a keyed request under a NaN
+   key searched on, the slot was overwritten, the value of ANOTHER member was loaded under the NaN key):
+   { NaN(float):1, 1.0f:2 }, VisitKeys, an int32 loaded under each key *)
+Example T_C03_mp_refines_visitkeys_repaired :
+  decode nan_doc = Some (MMap nan_kvs, []) /\ doc_ok (MMap nan_kvs) = true /\
+  spec_reqs no_narrow id_widen skip_all nan_kvs nan_prog = ([KFalse; KVal (VInt 2)], None, true) /\
+  run_obj_root no_narrow id_widen skip_all nan_doc nan_prog = Done (KOpen :: [KFalse; KVal (VInt 2)] ++ [KClose]) [] false.
+Proof. exact (conj nan_decodes (conj nan_doc_ok (conj nan_spec nan_run))). Qed.
+Print Assumptions T_C03_mp_refines_visitkeys_repaired.
 
 (* the former witness of F14: {"a":[1,2],"b":5} 7, one element of "a" read, then "b" requested *)
 Example T_C03_mp_refines_f14_repaired :
@@ -210,10 +177,9 @@ Theorem T_C03_close_failure_propagates : forall (C P : Type) (close : C -> list 
 Proof. exact @with_child_flag. Qed.
 Print Assumptions T_C03_close_failure_propagates.
 
-(* on well-formed documents the flag is never set: every error-free history loads (corollary of T_C03_mp_refines_outside) *)
+(* on well-formed documents the flag is never set: every error-free history loads (corollary of T_C03_mp_refines) *)
 Theorem T_C03_load_wellformed : forall narrow widen o data kvs rest h toks c,
   bytes data -> decode data = Some (MMap kvs, rest) -> doc_ok (MMap kvs) = true ->
-  (each_free_reqs h = true \/ keys_refl (MMap kvs) = true) ->
   spec_reqs narrow widen o kvs h = (toks, None, c) ->
   load_obj narrow widen o data h = LOk (KOpen :: toks ++ [KClose]) rest.
 Proof. exact load_obj_refines. Qed.
@@ -229,7 +195,6 @@ Print Assumptions T_C03_close_failure_example.
 (* the same for a root array, read to the end or not (vs' = what the history left unread) *)
 Theorem T_C03_array_root_refines : forall narrow widen o data vs rest h toks c vs',
   bytes data -> decode data = Some (MArr vs, rest) -> doc_ok (MArr vs) = true ->
-  (each_free_areqs h = true \/ keys_refl (MArr vs) = true) ->
   spec_areqs narrow widen o vs h = ((toks, None, c), vs') ->
   run_arr_root narrow widen o data h = Done (KOpen :: toks ++ [KClose]) rest false.
 Proof. exact arr_root_refines. Qed.
@@ -242,7 +207,6 @@ Print Assumptions T_C03_array_root_refines.
    the destructor passes exactly those *)
 Theorem T_C05_array_scope_counts : forall narrow widen o data vs rest l toks c vs',
   bytes data -> decode data = Some (MArr vs, rest) -> doc_ok (MArr vs) = true ->
-  (each_free_areqs l = true \/ keys_refl (MArr vs) = true) ->
   spec_areqs narrow widen o vs l = ((toks, None, c), vs') ->
   exists body idx p,
     read_array_size o data = ROk (N.of_nat (length vs)) body /\
@@ -317,7 +281,7 @@ Print Assumptions T_C03_read_timestamp.
    - histories that END IN AN ERROR (a mismatching target under the Throw policy, an overflow under
      Throw, "No more items to load", an unsupported key kind): that the model then reports exactly the
      specification's tokens and error and that the unwinding destructors do not terminate
-     (T_C03_mp_refines* assume an error-free history; terminate itself is excluded by the totality
+     (T_C03_mp_refines assumes an error-free history; terminate itself is excluded by the totality
      theorems of the destructors);
    - fuel sufficiency of find_loop / visit_loop on ILL-FORMED input (proved here for every document
      the reference decoder accepts: the outcomes above are Go / Done, never NoFuel; for the three
